@@ -142,7 +142,16 @@ class Parser:
             orig = token
             if is_flag(token) and not machine.result.unparsed:
                 # Equals-sign-delimited flags, eg --foo=bar or -f=bar
-                if "=" in token:
+                glued = (
+                    not is_long_flag(token)
+                    and len(token) > 2
+                    and token[2] != "="
+                    and machine.current_state != "unknown"
+                    and machine.context is not None
+                    and token[:2] in machine.context.flags
+                    and machine.context.flags[token[:2]].takes_value
+                )
+                if "=" in token and not glued:
                     token, _, value = token.partition("=")
                     msg = "Splitting x=y expr {!r} into tokens {!r} and {!r}"
                     debug(msg.format(orig, token, value))
